@@ -62,7 +62,7 @@ impl Prop for C17 {
         v
     }
     fn rule(&self) -> String {
-        "case = seeded history reaching an arbitrary chain state (commits, reorgs, ERC traffic, signed txs), then 4-12 probes at block boundaries: eth_call{from,to,data} (or a creation) immediately followed on the same instance by brc20_call / brc20_deploy with the same sender, target and data and an allowance equal to the configured call gas limit. Success flag and return data (debug_traceTransaction output / revert data) must be equal; a simulated creation must return exactly the code eth_getCode serves for the deployed address; programs cover storage, logs, reverts, invalid, nested CALL/STATICCALL/DELEGATECALL, CREATE/CREATE2 children (nonce-derived addresses), controller and token calls, precompiles; the Probe contract (timestamp, randomness, txid) is excluded. distinct = sha256 of (ops, probe seed); non-trivial = at least one successful and one failing prediction and one creation were compared".into()
+        "case = seeded history reaching an arbitrary chain state (commits, reorgs, ERC traffic, signed txs), then 4-12 probes at block boundaries: eth_call{from,to,data} (or a creation) immediately followed on the same instance by brc20_call / brc20_deploy with the same sender, target and data and an allowance equal to the configured call gas limit. Success flag and return data (debug_traceTransaction output / revert data) must be equal; a simulated creation must return exactly the code eth_getCode serves for the deployed address (also when the address was created in an orphaned block and touched since); calls read NUMBER, BLOCKHASH, CHAINID, GASLIMIT, COINBASE, BASEFEE, GASPRICE, ORIGIN, CALLER, SELFBALANCE, BLOBBASEFEE; programs cover storage, logs, reverts, invalid, nested CALL/STATICCALL/DELEGATECALL, CREATE/CREATE2 children (nonce-derived addresses), controller and token calls, precompiles; the Probe contract (timestamp, randomness, txid) is excluded. distinct = sha256 of (ops, probe seed); non-trivial = at least one successful and one failing prediction and one creation were compared".into()
     }
     fn execute(&self, case: &Value) -> RunOut {
         let sc = scenario_of(case);
@@ -129,6 +129,43 @@ impl Prop for C17 {
                                 json!({"probe": k, "reorg_to": target, "tx": trunc(&serde_json::to_value(&tx.kind).unwrap()), "eth_call": trunc(&predicted.to_value()), "receipt_status": rc["status"], "transaction_output": real_out}),
                             ));
                             break 'probes;
+                        }
+                    }
+                    continue;
+                }
+                // a deployment that lands on an address with history: deploy, orphan the block, let somebody touch the
+                // now empty address, deploy again with the same sender nonce (same address)
+                if g.rng.chance(1, 8) && w.height.map_or(false, |h| h >= 1) {
+                    let prog = DeployProg::NumberCode;
+                    let first = Tx { id, kind: TxKind::Deploy { sender, prog: prog.clone() }, len: LenPolicy::Generous, enc: Enc::Hex };
+                    let r1 = w.exec_tx(ts, &HashMode::Zero, &first);
+                    let _ = w.finalise(ts, &HashMode::Zero);
+                    let addr1 = r1.ok().and_then(|rc| rc["contractAddress"].as_str().map(|s| s.to_string()));
+                    let target = w.height.unwrap_or(1).saturating_sub(1);
+                    let rr = w.reorg_to(target);
+                    if let (Some(addr1), true) = (addr1, rr.is_ok()) {
+                        id += 1;
+                        let toucher = Tx { id, kind: TxKind::Call { sender: (sender + 1) % N_PK, target: Target::Addr(addr1.clone()), by_inscription: false, data: Cd::Sload(1) }, len: LenPolicy::Generous, enc: Enc::Hex };
+                        let _ = w.exec_tx(ts + 1, &HashMode::Zero, &toucher);
+                        let _ = w.finalise(ts + 1, &HashMode::Zero);
+                        id += 1;
+                        let predicted = w.inst.call("eth_call", json!([w.eth_call_obj(&Who::Pk(sender), &None, &Cd::Empty, &Some(prog.clone()))]));
+                        let again = Tx { id, kind: TxKind::Deploy { sender, prog }, len: LenPolicy::Generous, enc: Enc::Hex };
+                        let r2 = w.exec_tx(ts + 2, &HashMode::Zero, &again);
+                        let _ = w.finalise(ts + 2, &HashMode::Zero);
+                        if let Resp::Ok(rc) = &r2 {
+                            let addr2 = rc["contractAddress"].as_str().unwrap_or("").to_string();
+                            let real_ok = hex_u64(&rc["status"]) == Some(1);
+                            let code = w.inst.call("eth_getCode", json!([addr2])).ok().and_then(|c| c.as_str().map(|s| s.to_lowercase()));
+                            let pred_out = predicted.clone().ok().and_then(|v| v.as_str().map(|s| s.to_lowercase()));
+                            w.stats.bump(if addr2 == addr1 { "probe_redeploy_at_touched_address" } else { "probe_redeploy_elsewhere" });
+                            if predicted.is_ok() != real_ok || (real_ok && code != pred_out) {
+                                violation = Some(Violation::new(
+                                    "simulated-creation-code-differs/redeploy-after-reorg",
+                                    json!({"probe": k, "address_first": addr1, "address_again": addr2, "eth_call": pred_out, "eth_getCode": code, "receipt_status": rc["status"]}),
+                                ));
+                                break 'probes;
+                            }
                         }
                     }
                     continue;
